@@ -409,6 +409,52 @@ def iterRows (ncols : Nat) : Nat → Bytes → List (Except (Nat × String) (Lis
     | .error e => .error e :: iterRows ncols n (skipRow ncols 0 buf).2
     | .ok (cells, b) => .ok cells :: iterRows ncols n b
 
+/-! ### `RawRowLendingIterator` (the row iterator behind `QueryPager` / `TypedRowStream`,
+`scylla-cql/src/deserialize/result.rs:26-110`)
+
+It owns the page (`raw_rows: Bytes`) and keeps a persistent OFFSET `self.at` instead of a slice: every `next()`
+re-slices `&raw_rows[self.at..]` (panics when `at > len`), skips the row with `read_cql_bytes` per column and advances
+`self.at` by what each read consumed (`before - after`, a `usize` subtraction). -/
+
+def USIZE_MAX : Nat := 2 ^ 64 - 1
+
+/-- The skip loop of `RawRowLendingIterator::next`: `sl` is the local slice, `at` the persistent offset. -/
+def lendSkip : Nat → Nat → Bytes → Nat → Outcome (Option (Nat × String) × Nat)
+  | 0, _, _, off => .ok (none, off)
+  | n + 1, idx, sl, off =>
+    match readBytesOpt { buf := sl } with
+    | (.panic k, _) => .panic k
+    | (.err k, _) => .ok (some (idx, k), off)
+    | (.ok _, s) =>
+      let before := sl.length
+      let after := s.buf.length
+      if after > before then .panic "len_before - len_after (usize underflow)"
+      else if off + (before - after) > USIZE_MAX then .panic "self.at += … (usize overflow)"
+      else lendSkip n (idx + 1) s.buf (off + (before - after))
+
+/-- All items `RawRowLendingIterator` yields when `next()` is called until `None` (also after `Err` items), or a
+panic.  An item is the row's cells (what the returned `ColumnIterator` reads) or the failure of the skip loop. -/
+def lendRows (ncols : Nat) : Nat → Nat → Bytes → Outcome (List (Except (Nat × String) (List (Option Bytes))))
+  | 0, _, _ => .ok []
+  | n + 1, off, raw =>
+    -- `&remaining_frame.as_slice()[self.off..]`
+    if off > raw.length then .panic "range start index out of range for slice"
+    else
+      let sl := raw.drop off
+      match lendSkip ncols 0 sl off with
+      | .panic k => .panic k
+      | .err k => .err k
+      | .ok (e, off') =>
+        let item : Except (Nat × String) (List (Option Bytes)) := match e with
+          | some f => .error f
+          | none => match readCells ncols 0 sl with
+            | .ok (cells, _) => .ok cells
+            | .error f => .error f
+        match lendRows ncols n off' raw with
+        | .panic k => .panic k
+        | .err k => .err k
+        | .ok rest => .ok (item :: rest)
+
 inductive ResultResp where
   | void
   | rows (r : RawRows)
